@@ -91,6 +91,13 @@ func c10Enumerate(tier string, seed int64, emit func(string, any)) {
 		one("dict", `{"t":7,"v":{"dict":{"k":{"t":7,"v":{"dict":`+d+`}}}}}`)
 		one("dict", `{"t":6,"v":{"list":[{"t":7,"v":{"dict":`+d+`}}]}}`)
 	}
+	for _, d := range []string{
+		`{"t":7,"v":{"dict":{"a":{"t":0,"v":1}},"dict":{"b":{"t":0,"v":2}}}}`, `{"t":7,"v":{"dict":{}},"v":{"dict":{"b":{"t":0,"v":2}}}}`, `{"t":7,"v":{"dict":{"a":{"t":0,"v":1},"a":{"t":0,"v":2}}}}`,
+		`{"t":0,"v":1,"v":2}`, `{"t":0,"t":7,"v":{"dict":{}}}`, `{"t":6,"v":{"list":[],"list":[{"t":0,"v":1}]}}`, `{"t":5,"v":{"expr":"1","attrs":{"a":{"t":0,"v":1}},"attrs":{"b":{"t":0,"v":1}}}}`,
+		`{"t":7,"v":{"dict":{"k":{"t":7,"v":{"dict":{"a":{"t":0,"v":1}},"dict":{"b":{"t":0,"v":2}}}}}}}`,
+	} {
+		one("duplicated keys", d)
+	}
 	one("dict", `{"t":7,"v":{}}`)
 	one("array", `{"t":6,"v":{}}`)
 	// functions
@@ -160,6 +167,38 @@ func c10Run(raw json.RawMessage) harn.Result {
 	}
 	var v *ds.VMValue
 	var derr error
+	if c.Map {
+		// a variable map is also reloaded into maps that have been used before (every internal state of the sequential closure's entry paths)
+		for _, recipe := range [][]string{{"S:a"}, {"S:a", "L:a"}, {"S:a", "L:a", "D:a"}, {"S:a", "L:a", "D:a", "S:b"}, {"S:a", "S:v", "R"}, {"S:v"}, {"S:v", "L:v", "D:v"}} {
+			used := &ds.ValueMap{}
+			for _, op := range recipe {
+				switch op[0] {
+				case 'S':
+					used.Store(op[2:], ds.NewIntVal(1))
+				case 'L':
+					used.Load(op[2:])
+				case 'D':
+					used.Delete(op[2:])
+				case 'R':
+					used.Range(func(string, *ds.VMValue) bool { return true })
+				}
+			}
+			site, p := harn.Guard(func() {
+				if err := used.UnmarshalJSON([]byte(c.Doc)); err == nil {
+					n := 0
+					used.Range(func(k string, x *ds.VMValue) bool { n++; _ = x.ToString(); return true })
+					if n != used.Length() {
+						panic(fmt.Sprintf("reloaded map: Range visits %d entries, Length() = %d", n, used.Length()))
+					}
+					_, _ = used.ToJSON()
+				}
+			})
+			if p {
+				viol(site, fmt.Sprintf("panic while reloading the document into a map that had been used (%v)", recipe))
+				break
+			}
+		}
+	}
 	site, p := harn.Guard(func() {
 		if c.Map {
 			m := &ds.ValueMap{}
@@ -246,7 +285,7 @@ func c10Run(raw json.RawMessage) harn.Result {
 func init() {
 	harn.Register(&harn.Check{
 		ID:   "C10",
-		Rule: "documents: the document grammar {t: T, v: V} with T over every defined tag, internal tags, unknown, negative, fractional, string, null, absent and V over absent/null/wrong-typed scalars/containers, and for each structured kind every combination of its fields in {absent, null, wrong type, empty, valid, nested sub-document from a 31-document set incl. unknown native names, bound-method names, null elements, broken expressions}; each also wrapped as a variable-map entry; plus every truncation and 6 single-byte edits at every position of 9 valid documents. Every successfully decoded value goes through the battery: ToString, ToRepr, AsBool, GetTypeName, Clone, ValueEqual (self, copy, 6 other kinds, both argument orders), AsDictKey, ToJSON + re-decode, map ToJSON, and 59 scripts with the value bound as a variable (indexing, calling, arithmetic, attribute access, methods, dice, templates, conversion builtins, control flow). Oracle: no Go panic, fatal error or hang. Non-trivial = document decodes to a value; distinct by document.",
+		Rule: "documents: the document grammar {t: T, v: V} with T over every defined tag, internal tags, unknown, negative, fractional, string, null, absent and V over absent/null/wrong-typed scalars/containers, and for each structured kind every combination of its fields in {absent, null, wrong type, empty, valid, nested sub-document from a 31-document set incl. unknown native names, bound-method names, null elements, broken expressions}; each also wrapped as a variable-map entry; documents with duplicated keys; variable-map documents are also reloaded into maps in 7 used internal states; plus every truncation and 6 single-byte edits at every position of 9 valid documents. Every successfully decoded value goes through the battery: ToString, ToRepr, AsBool, GetTypeName, Clone, ValueEqual (self, copy, 6 other kinds, both argument orders), AsDictKey, ToJSON + re-decode, map ToJSON, and 59 scripts with the value bound as a variable (indexing, calling, arithmetic, attribute access, methods, dice, templates, conversion builtins, control flow). Oracle: no Go panic, fatal error or hang. Non-trivial = document decodes to a value; distinct by document.",
 		Enumerate: c10Enumerate,
 		Run:       c10Run,
 		Budget:    map[string]time.Duration{"quick": 170 * time.Second, "thorough": 40 * time.Minute},
